@@ -649,6 +649,27 @@ impl<'cmd> Parser<'cmd> {
         None
     }
 
+    // With inference on, is the text the start of a long flag (or long flag alias) of a subcommand?
+    fn long_flag_subcommand_starts_with(&self, arg: &str) -> bool {
+        self.cmd.is_infer_subcommands_set()
+            && self.cmd.get_subcommands().any(|sc| {
+                sc.get_long_flag()
+                    .map_or(false, |long| long.starts_with(arg))
+                    || sc
+                        .get_all_long_flag_aliases()
+                        .any(|alias| alias.starts_with(arg))
+            })
+    }
+
+    // With inference on, is the text the start of a long name (or long alias) of an argument?
+    fn long_arg_starts_with(&self, arg: &str) -> bool {
+        self.cmd.is_infer_long_args_set()
+            && self.cmd.get_arguments().any(|a| {
+                a.get_long().map_or(false, |long| long.starts_with(arg))
+                    || a.aliases.iter().any(|(alias, _)| alias.starts_with(arg))
+            })
+    }
+
     fn parse_help_subcommand(
         &self,
         cmds: impl Iterator<Item = &'cmd OsStr>,
@@ -808,7 +829,10 @@ impl<'cmd> Parser<'cmd> {
                     .find_map(|(alias, _)| alias.starts_with(long_arg).then(|| (alias.as_str(), a)))
             });
 
-            iter.next().filter(|_| iter.next().is_none())
+            // A long flag subcommand the text could also stand for makes it ambiguous
+            iter.next().filter(|_| {
+                iter.next().is_none() && !self.long_flag_subcommand_starts_with(long_arg)
+            })
         } else {
             None
         };
@@ -858,7 +882,12 @@ impl<'cmd> Parser<'cmd> {
                     matcher,
                 )
             }
-        } else if let Some(sc_name) = self.possible_long_flag_subcommand(long_arg) {
+        } else if let Some(sc_name) = if self.long_arg_starts_with(long_arg) {
+            // An argument the text could also stand for: only the exact long flag is not ambiguous
+            self.cmd.find_long_subcmd(long_arg)
+        } else {
+            self.possible_long_flag_subcommand(long_arg)
+        } {
             if let Some(rest) = long_value {
                 // A flag subcommand takes no value, don't silently drop it
                 Ok(ParseResult::UnneededAttachedValue {
